@@ -112,6 +112,8 @@ class Injector:
         self._depth_in_window = 0
         self._cache = {}
         self.trace_lines = [] if record_at else None
+        self.outside_window = False
+        self._win = 0
 
     def _want(self, filename):
         r = self._cache.get(filename)
@@ -124,10 +126,22 @@ class Injector:
     def tracer(self, frame, event, arg):
         if not self._want(frame.f_code.co_filename):
             return None
+        if self.only_in and frame.f_code.co_name in self.only_in:
+            self._win += 1
+            return self.local_window_root
         return self.local
+
+    def local_window_root(self, frame, event, arg):
+        if event == "return":
+            self._win -= 1
+            return self.local_window_root
+        self.local(frame, event, arg)
+        return self.local_window_root
 
     def local(self, frame, event, arg):
         if event != "line":
+            return self.local
+        if self.only_in and self._win <= 0 and not self.pending:
             return self.local
         self.count += 1
         if self.trace_lines is not None:
@@ -145,9 +159,14 @@ class Injector:
                 if self.sig in signal.pthread_sigmask(signal.SIG_BLOCK, []):
                     self.pending = True
                     return self.local
+                h = signal.getsignal(self.sig)
+                if not (callable(h) and str(getattr(h, "__module__", "")).startswith("conductor")):
+                    # Conductor has not installed its handler yet (or not any more):
+                    # deliver as soon as it has one.
+                    self.pending = True
+                    return self.local
                 self.pending = False
                 self._mark(frame)
-                h = signal.getsignal(self.sig)
                 if callable(h):
                     if self.on_kill is not None:
                         self.on_kill(self)
@@ -227,6 +246,7 @@ def _child(wfd, root, argv, cwd, kspec, inject, env, pre, post, want_events):
 
             k.fatal = fatal
             K.activate(k)
+            k.start_watchdog()
         out = Capture("o", events)
         err = Capture("e", events)
         sys.stdout = out
@@ -275,6 +295,7 @@ def _child(wfd, root, argv, cwd, kspec, inject, env, pre, post, want_events):
             err.write(traceback.format_exc())
         if inj is not None:
             res["lines"] = inj.count
+            res["outside_window"] = inj.outside_window
             if inj.fired is not None and "inject" not in res:
                 res["inject"] = inj.fired
             if inj.trace_lines is not None:
